@@ -65,6 +65,11 @@ def _base_configs():
                   calls=[(1.0, 0.02)], iter="euler"))
     c.append(dict(tag="multi-ramp-above-solvus", multi=True, phases=[ph], se2=(2e-4, 1e-4), temp=("array", [0, H(0.5), H(1.5)], [1000, 1000, 1100]),
                   calls=[(1.5, 0.02)], iter="euler", constraints=dict(maxNonIsothermalDT=50)))
+    # precipitate and matrix molar volumes differ: every conversion between molar and volumetric driving force matters
+    c.append(dict(tag="multi-vm-ratio-large-beta", multi=True, phases=[dict(ph, VmB=1.3e-5)], calls=[(0.6, 0.02), (0.6, 0.02)], iter="euler"))
+    c.append(dict(tag="multi-vm-ratio-small-beta-rk4", multi=True, phases=[dict(ph, VmB=0.8e-5)], calls=[(1.0, 0.02)], iter="rk4"))
+    c.append(dict(tag="multi-vm-ratio-two-phases", multi=True, phases=[dict(ph, VmB=1.2e-5), dict(name="gamma", gamma=0.055, xe0=(0.005, 0.004), xb=(0.15, 0.2), w=(0.6, 1.0), VmB=0.85e-5)],
+                  calls=[(1.0, 0.02)], iter="euler"))
     c.append(dict(tag="multi-fault-growth", multi=True, phases=[ph], calls=[(0.5, 0.05)], iter="euler", faults={"growth": [3, 4, 20]}))
     c.append(dict(tag="multi-fault-growth-rk4", multi=True, phases=[ph], calls=[(0.5, 0.05)], iter="rk4", faults={"growth": [2, 9]}))
     c.append(dict(tag="multi-fault-after-regrid", multi=True, phases=[ph], pbm=(1e-10, 1e-9, 24, 12, 36, True), calls=[(1.0, 0.02), (1.0, 0.02)], iter="euler",
